@@ -488,6 +488,7 @@ func main() {
 	perCfg := map[string]interface{}{}
 	var mu sync.Mutex
 	facts := map[string]int{}
+	var flaky []string
 	maxDepth := 0
 	for _, cfg := range cfgs {
 		cfg := cfg
@@ -518,7 +519,11 @@ func main() {
 				for i := 0; i < 4; i++ {
 					again := replay(cfg, h, false)
 					if again.res.Violation != res.Violation {
-						ev.Fatalf("nondeterministic verdict for %v %v: %q vs %q", cfg, h, res.Violation, again.res.Violation)
+						// never report a verdict that does not reproduce
+						mu.Lock()
+						flaky = append(flaky, cfg.String()+" "+strings.Join(h, ",")+": "+res.Violation+" vs "+again.res.Violation)
+						mu.Unlock()
+						return
 					}
 				}
 				k := kase{Cfg: cfg, Hist: append([]string(nil), h...)}
@@ -563,8 +568,12 @@ func main() {
 	r.Assume("fake pools/connections model the backend: BEGIN/COMMIT/ROLLBACK/SET autocommit change the server-side transaction flags as MySQL does; pool.Put applies the real reset-on-put rule (rollback open transaction, autocommit back to 1)")
 	r.Assume("all backend calls answer ok (faults are C19's subject)")
 	// non-vacuity: the facts that make the oracle meaningful must have been observed
+	r.Set("irreproducible_verdicts", len(flaky))
+	if len(flaky) > 0 && r.Violations() == 0 {
+		ev.Fatalf("%d histories gave a verdict that did not reproduce in 5 runs, e.g. %s", len(flaky), flaky[0])
+	}
 	for _, f := range []string{"replica_read_outside_tx", "other_session_reused_conn_of_A", "two_slice_tx_ended_by_COMMIT", "two_slice_tx_ended_by_ROLLBACK"} {
-		if facts[f] == 0 && !r.TimeUp() {
+		if facts[f] == 0 && !r.TimeUp() && r.Violations() == 0 {
 			ev.Fatalf("vacuous run: fact %q never observed", f)
 		}
 	}
